@@ -5,6 +5,7 @@ package sx
 
 import (
 	"fmt"
+	"sort"
 	"math"
 	"math/bits"
 	"strconv"
@@ -151,6 +152,8 @@ type Term struct {
 	Tab    *Table
 	id     int
 	size   int // number of nodes (tree size, capped)
+	h1, h2 uint64 // structural hash (stable across paths)
+	vars   []string // sorted variable names occurring in the term (nil for constants)
 }
 
 func (t *Term) IsConst() bool { return t.Op == OpConst }
@@ -231,6 +234,9 @@ func (s *Store) Var(name string, so Sort) *Term {
 		return t
 	}
 	t := &Term{Op: OpVar, Sort: so, Name: name, id: s.next, size: 1}
+	t.h1 = strHash(name, 0xcbf29ce484222325)
+	t.h2 = strHash(name, 0x84222325cbf29ce4)
+	t.vars = []string{name}
 	s.next++
 	s.tab[key] = t
 	s.Vars = append(s.Vars, t)
@@ -292,9 +298,70 @@ func (s *Store) mk(op Op, so Sort, i1, i2 int, name string, tab *Table, args ...
 		sz = 1 << 30
 	}
 	t := &Term{Op: op, Sort: so, Args: args, I1: i1, I2: i2, Name: name, Tab: tab, id: s.next, size: sz}
+	h1 := mix(uint64(op)<<16|uint64(so.W), uint64(i1)<<20^uint64(i2))
+	h2 := mix(0xabcdef^uint64(op), uint64(so.W)<<8|uint64(so.K))
+	if name != "" {
+		h1 = mix(h1, strHash(name, 7))
+		h2 = mix(h2, strHash(name, 11))
+	}
+	if tab != nil {
+		h1 = mix(h1, uint64(tab.ID)+99)
+		h2 = mix(h2, uint64(tab.ID)+77)
+	}
+	for _, a := range args {
+		a1, a2 := a.hashes()
+		h1 = mix(h1, a1)
+		h2 = mix(h2, a2)
+	}
+	t.h1, t.h2 = h1, h2
+	t.vars = mergeVars(args)
 	s.next++
 	s.tab[key] = t
 	return t
+}
+
+func mix(h, v uint64) uint64 {
+	h ^= v + 0x9e3779b97f4a7c15 + (h << 6) + (h >> 2)
+	h *= 0xff51afd7ed558ccd
+	h ^= h >> 33
+	return h
+}
+
+func strHash(s string, seed uint64) uint64 {
+	h := seed
+	for i := 0; i < len(s); i++ {
+		h = (h ^ uint64(s[i])) * 0x100000001b3
+	}
+	return h
+}
+
+// hashes returns the structural hash pair of t.
+func (t *Term) hashes() (uint64, uint64) {
+	if t.Op == OpConst {
+		a := mix(uint64(t.Sort.K)<<8|uint64(t.Sort.W), t.C)
+		return a, mix(a, 0x1234567)
+	}
+	return t.h1, t.h2
+}
+
+func mergeVars(args []*Term) []string {
+	var out []string
+	for _, a := range args {
+		for _, v := range a.vars {
+			found := false
+			for _, o := range out {
+				if o == v {
+					found = true
+					break
+				}
+			}
+			if !found {
+				out = append(out, v)
+			}
+		}
+	}
+	sort.Strings(out)
+	return out
 }
 
 func sameConst(a, b *Term) bool {
@@ -389,6 +456,12 @@ func (s *Store) Eq(a, b *Term) *Term {
 	if a.Op == OpConst && b.Op != OpConst {
 		a, b = b, a
 	}
+	if b.Op == OpConst && a.Op == OpFToS {
+		return s.And(s.Bin(OpSLE, a, b), s.Bin(OpSLE, b, a))
+	}
+	if b.Op == OpConst && a.Op == OpIte && a.Sort.K == KBV && (a.Args[1].Op == OpConst || a.Args[2].Op == OpConst) {
+		return s.Ite(a.Args[0], s.Eq(a.Args[1], b), s.Eq(a.Args[2], b))
+	}
 	// zext(x) == const: compare at the narrow width
 	if b.Op == OpConst && a.Op == OpZExt {
 		inner := a.Args[0]
@@ -450,6 +523,20 @@ func (s *Store) Bin(op Op, a, b *Term) *Term {
 	case OpULT, OpULE, OpSLT, OpSLE:
 		if a == b {
 			return s.Bool(op == OpULE || op == OpSLE)
+		}
+		// comparison of a constant with ite(c, x, y): distribute when an arm is constant
+		if b.Op == OpConst && a.Op == OpIte && (a.Args[1].Op == OpConst || a.Args[2].Op == OpConst) {
+			return s.Ite(a.Args[0], s.Bin(op, a.Args[1], b), s.Bin(op, a.Args[2], b))
+		}
+		if a.Op == OpConst && b.Op == OpIte && (b.Args[1].Op == OpConst || b.Args[2].Op == OpConst) {
+			return s.Ite(b.Args[0], s.Bin(op, a, b.Args[1]), s.Bin(op, a, b.Args[2]))
+		}
+		// signed comparison of int(f) (round toward zero) with a constant: compare f itself.
+		// Valid because the conversion is only built for f within the integer range.
+		if (op == OpSLT || op == OpSLE) && so.K == KBV {
+			if r := s.cmpFToS(op, a, b); r != nil {
+				return r
+			}
 		}
 		// zext(x) <u const  etc.: narrow
 		if so.K == KBV && (op == OpULT || op == OpULE) {
@@ -566,6 +653,47 @@ func (s *Store) Bin(op Op, a, b *Term) *Term {
 		}
 	}
 	return s.mk(op, so, 0, 0, "", nil, a, b)
+}
+
+// cmpFToS rewrites  trunc(f) <op> c  and  c <op> trunc(f)  into floating-point comparisons of f.
+func (s *Store) cmpFToS(op Op, a, b *Term) *Term {
+	fc := func(v int64, so Sort) *Term {
+		if so.W == 32 {
+			return s.F32(float32(v))
+		}
+		return s.F64(float64(v))
+	}
+	if a.Op == OpFToS && b.Op == OpConst {
+		f := a.Args[0]
+		c := sext(b.C, b.Sort.W)
+		if c > 1<<52 || c < -(1<<52) {
+			return nil
+		}
+		if op == OpSLT { // trunc(f) < c  <=>  trunc(f) <= c-1
+			c--
+		}
+		// trunc(f) <= c
+		if c >= 0 {
+			return s.FBin(OpFLT, f, fc(c+1, f.Sort))
+		}
+		return s.FBin(OpFLE, f, fc(c, f.Sort))
+	}
+	if b.Op == OpFToS && a.Op == OpConst {
+		f := b.Args[0]
+		c := sext(a.C, a.Sort.W)
+		if c > 1<<52 || c < -(1<<52) {
+			return nil
+		}
+		if op == OpSLT { // c < trunc(f)  <=>  c+1 <= trunc(f)
+			c++
+		}
+		// c <= trunc(f)
+		if c > 0 {
+			return s.FBin(OpFLE, fc(c, f.Sort), f)
+		}
+		return s.FBin(OpFLT, fc(c-1, f.Sort), f)
+	}
+	return nil
 }
 
 func (s *Store) Un(op Op, a *Term) *Term {
